@@ -409,7 +409,11 @@ def apply_op(obj, op, env):
         return obj.astype(lit(op["dtypes"]))
     if k == "fillna":
         sub = obj[list(op["cols"])] if "cols" in op else obj
-        return sub.fillna(lit(op["value"]))
+        v = op["value"]
+        if isinstance(v, dict) and "red" in v:
+            # df.fillna(df.max()): the fill values are a (lazy) Series labelled by the column names
+            return sub.fillna(getattr(sub, v["red"])())
+        return sub.fillna(lit(v))
     if k in ("where", "mask"):
         sub = obj[list(op["cols"])]
         cond = BINOPS[op["cmp"]](sub, lit(op["than"]))
@@ -610,6 +614,10 @@ def gen_bool(draw, schema, ctx, depth=0, plain=False):
         choices += ["cmp", "cmp", "cmp_col", "isin", "isna", "between"]
         if not plain:
             choices += ["cmp_red"]
+        if ctx.get("ext") and not plain:
+            # a predicate that is NOT row-wise: it depends on the neighbouring rows of the frame it is taken from
+            # (f[f.b.shift(1) > 10] after an earlier filter must see the FILTERED neighbours)
+            choices += ["seqcmp"]
     if cols_of(schema, BOOLS):
         choices += ["boolcol"]
     if cols_of(schema, STRS):
@@ -628,9 +636,13 @@ def gen_bool(draw, schema, ctx, depth=0, plain=False):
             return {"e": "inv", "x": a}
         return {"e": "bin", "op": k, "l": a, "r": b}
     k = _sample(draw, choices)
-    if k in ("cmp", "cmp_col", "cmp_red", "isin", "isna", "between"):
+    if k in ("cmp", "cmp_col", "cmp_red", "isin", "isna", "between", "seqcmp"):
         n = _sample(draw, nums)
         x = _col(n)
+        if k == "seqcmp":
+            m = _sample(draw, ["shift", "shift", "diff", "ffill", "bfill"])
+            args = [_sample(draw, [1, 1, -1, 2])] if m in ("shift", "diff") else []
+            return {"e": "bin", "op": _sample(draw, CMP), "l": {"e": "meth", "x": x, "m": m, "args": args}, "r": _lit(_sample(draw, NUM_LITS))}
         if k == "cmp" and depth < 2 and draw(st.integers(0, 3)) == 0:
             g = gen_num(draw, schema, ctx, depth + 1)
             if g is not None:
@@ -859,6 +871,10 @@ def gen_frame_op(draw, schema, ctx, last):
         return {"op": "astype", "dtypes": {"dict": dt}}, [[n, (DT2CLS.get(m[n], "other") if n in m else c)] for n, c in schema], False
     if k == "fillna":
         cs = [n for n, c in schema if c in FILL]
+        if ctx.get("ext") and nums and draw(st.integers(0, 3)) == 0:
+            # fill with a reduction of the same columns, df.fillna(df.max()) (extrema: independent of summation order)
+            cols = subset(nums)
+            return {"op": "fillna", "cols": cols, "value": {"red": _sample(draw, ["max", "min"])}}, [[n, d[n]] for n in cols], False
         if nums and draw(st.booleans()):
             # scalar fill on a numeric projection
             cols = subset(nums)
@@ -869,7 +885,13 @@ def gen_frame_op(draw, schema, ctx, last):
         return {"op": "fillna", "value": {"dict": [[n, FILL[d[n]]] for n in chosen]}}, schema, False
     if k == "isin":
         cols = subset(names)
-        vals = draw(st.lists(st.sampled_from([0, 1, 2, -1, 0.5, "a", "foo", "u", True]), max_size=4))
+        pool = [0, 1, 2, -1, 0.5, "a", "foo", "u", True]
+        if ctx.get("ext") and draw(st.integers(0, 2)) == 0:
+            # values per column: df.isin({"a": [1, 2], "b": [...]}) (labels that are not columns are ignored by pandas)
+            keys = subset(names) + (["nope"] if draw(st.integers(0, 4)) == 0 else [])
+            vals = {"dict": [[c, draw(st.lists(st.sampled_from(pool), max_size=3))] for c in keys]}
+            return {"op": "isin", "cols": cols, "values": vals}, [[n, "bool"] for n in cols], False
+        vals = draw(st.lists(st.sampled_from(pool), max_size=4))
         return {"op": "isin", "cols": cols, "values": vals}, [[n, "bool"] for n in cols], False
     if k == "frame_bin":
         cols = subset(nums)
@@ -940,9 +962,11 @@ def gen_frame_op(draw, schema, ctx, last):
     raise AssertionError(k)
 
 
-def gen_pipeline(draw, fspec, max_ops=3, allow_other=True, allow_series=True, nonzero_div=False):
+def gen_pipeline(draw, fspec, max_ops=3, allow_other=True, allow_series=True, nonzero_div=False, ext=False):
+    """``ext``: additionally generate fillna(reduction), isin(dict) and neighbour-dependent filter predicates
+    (shift/diff/ffill/bfill); off by default so that the other users of this grammar keep their case streams."""
     schema0 = schema_of(fspec)
-    ctx = {"schema0": schema0, "allow_other": allow_other, "allow_root": allow_other, "nonzero_div": nonzero_div}
+    ctx = {"schema0": schema0, "allow_other": allow_other, "allow_root": allow_other, "nonzero_div": nonzero_div, "ext": ext}
     nops = draw(st.integers(1, max_ops))
     ops = []
     schema = schema0
